@@ -369,15 +369,22 @@ impl<'a> PrivacyUnitTracking<'a> {
                     .right(Relation::from(right))
                     .build();
                 let mut builder = Relation::map();
+                // In outer joins one side can be missing: take the unit and weight of the present side
+                let (left_unit, right_unit, left_weight, right_weight) = (
+                    Expr::col(format!("_LEFT{}", PrivacyUnit::privacy_unit())),
+                    Expr::col(format!("_RIGHT{}", PrivacyUnit::privacy_unit())),
+                    Expr::col(format!("_LEFT{}", PrivacyUnit::privacy_unit_weight())),
+                    Expr::col(format!("_RIGHT{}", PrivacyUnit::privacy_unit_weight())),
+                );
                 builder = builder.with((
                     PrivacyUnit::privacy_unit(),
-                    Expr::col(format!("_LEFT{}", PrivacyUnit::privacy_unit())),
+                    Expr::coalesce(left_unit, right_unit),
                 ));
                 builder = builder.with((
                     PrivacyUnit::privacy_unit_weight(),
-                    Expr::multiply(
-                        Expr::col(format!("_LEFT{}", PrivacyUnit::privacy_unit_weight())),
-                        Expr::col(format!("_RIGHT{}", PrivacyUnit::privacy_unit_weight())),
+                    Expr::coalesce(
+                        Expr::multiply(left_weight.clone(), right_weight.clone()),
+                        Expr::coalesce(left_weight, right_weight),
                     ),
                 ));
                 builder = join.names().iter().fold(builder, |b, (p, n)| {
